@@ -549,7 +549,7 @@ class Flow:
                 if seq_has_new:
                     continue
                 ok_rel = False
-                cands = [val] + ([payload(val)] if val == ('in', cell) else [])
+                cands = [val, payload(val)]
                 for V_ in vs:
                     for val_ in cands:
                         allowed = {'<', '=', '>'}
